@@ -46,7 +46,8 @@ class PointArraySort(Sort):
         a += [off >= 0, ln >= 0]
         rep = SRecord('FixedArray', {'offset': off, 'length': ln, 'bufs': STuple([vb, vals])})
         rep.fields['m:buffers'] = lambda eng, s, fr, obj, args, kwargs, lineno: obj.fields['bufs']
-        me = SRecord('PointArray', {'data': rep, 'numpy_dtype': DType('float64'), '_element_len': SInt(2), '_sindex': NONE})
+        vals.base.meta['coordinate_dtype'] = True
+        me = SRecord('PointArray', {'data': rep, 'numpy_dtype': DType('float64', coordinate=True), '_element_len': SInt(2), '_sindex': NONE})
         return me, a
 
     def gen(self, rng, config):
